@@ -554,13 +554,16 @@ impl Sim {
                 let d = &g::QUERIES[q];
                 let mut out = Vec::new();
                 let w = self.slots[si].world.as_mut().unwrap();
-                let r = sut(|| g::query(w, q, *mode % 3, *split as usize, *salt, &mut out));
+                // Modes that do not hand out every item are for read-only consumption.
+                let mode = if salt.is_some() { *mode % 3 } else { *mode % NMODES };
+                let r = sut(|| g::query(w, q, mode, *split as usize, *salt, &mut out));
                 let n = match r {
                     Ok(Ok(n)) => n,
                     Ok(Err(e)) => return Err(viol("C03", "query-size-hint", format!("query #{q} {d:?}: {e}"))),
                     Err(c) => return Err(unexpected(c, "World::query", "C03")),
                 };
-                self.check_query_results(si, d, &out, n, *salt, &format!("World::query #{q}"))?;
+                let slack = LAST_SLACK.load(std::sync::atomic::Ordering::Relaxed);
+                self.check_query_results_partial(si, d, &out, n, slack, *salt, &format!("World::query #{q} (mode {mode})"))?;
                 self.probes.hit("query");
                 if salt.is_some() && d.writes() {
                     self.probes.hit("query_mutating");
@@ -1196,6 +1199,41 @@ impl Sim {
                 }
             }
         }
+    }
+
+    /// `n` items consumed at least, `n + slack` at most, of which `out` were handed out.
+    fn check_query_results_partial(&mut self, si: usize, d: &QDesc, out: &[Rec], n: usize, slack: usize, salt: Option<u64>, what: &str) -> Result<(), Violation> {
+        if slack == 0 && out.len() == n {
+            return self.check_query_results(si, d, out, n, salt, what);
+        }
+        for r in out {
+            if let Some(e) = &r.err {
+                return Err(viol("C05", "payload-integrity", format!("{what}: {e}")));
+            }
+        }
+        let m = &self.slots[si].model;
+        let mut want: Vec<_> = m.ents.iter().filter(|(_, r)| d.matches(r.mask())).map(|(id, r)| Self::expected_sig(d, *id, r)).collect();
+        want.sort();
+        let expected = want.len();
+        for h in out.iter().map(Self::observed_sig) {
+            match want.binary_search(&h) {
+                Ok(i) => {
+                    want.remove(i);
+                }
+                Err(_) => {
+                    return Err(viol("C03", "query-results", format!("{what} {d:?}: result {h:?} is not among the results the model expects (or was yielded twice)")));
+                }
+            }
+        }
+        if expected < n || expected > n.saturating_add(slack) {
+            return Err(viol(
+                "C03",
+                "query-results",
+                format!("{what} {d:?}: nth/count/last consumed between {n} and {} results, the model expects {expected}", n.saturating_add(slack)),
+            ));
+        }
+        self.probes.hit("query_consumed_by_nth_count_last");
+        Ok(())
     }
 
     fn check_query_results(&mut self, si: usize, d: &QDesc, out: &[Rec], n: usize, salt: Option<u64>, what: &str) -> Result<(), Violation> {
